@@ -62,3 +62,22 @@ Definition kf_C46 (i : val) : Z :=
     end
   | None => 0
   end.
+
+(* executable well-formedness of an input (what the generator produces and the proofs assume): decodable,
+   stream of at most 4096 bytes, header limit 0..4000 *)
+Definition wf_C46 (i : val) : bool :=
+  match dec_C46 i with
+  | Some (_, limit, chunks, _, _) => (blen (concat chunks) <=? 4096) && (0 <=? limit) && (limit <=? 4000)
+  | None => false
+  end.
+(* guard of the general part of the central theorem: the specification classifies the stream as "no header" or as
+   receiver's choice (conformant headers are covered by the per-encoder theorems, rejections are not proved) *)
+Definition guard_C46 (i : val) : bool :=
+  match dec_C46 i with
+  | Some (_, limit, chunks, os, od) =>
+    match spec_classify limit os od (concat chunks) with
+    | SNoHeader | SDontCare => true
+    | _ => false
+    end
+  | None => false
+  end.
